@@ -167,7 +167,7 @@ pub fn bool_store(a: &AtomicBool, v: bool, o: Ordering) {
         let p = a as *const AtomicBool as usize;
         if p == CLOSED_ADDR {
             assert!(v, "C11.STICKY: nothing ever stores false into the closed flag");
-            assert!(matches!(o, Ordering::SeqCst), "C11.STICKY: the closed flag is stored SeqCst");
+            assert!(matches!(o, Ordering::SeqCst | Ordering::Release | Ordering::AcqRel), "C11.STICKY: the closed flag is published with at least Release ordering (before the wake-up write)");
             lm::ev(lm::EV_USER, 1, 0, 0, 0, 0); // event: closed := true
         } else if SLOT_BASE != 0 && p >= SLOT_BASE && p < SLOT_BASE + MAX_SIGNUM {
             SLOT_PLAIN_STORES += 1;
